@@ -505,12 +505,25 @@ func vLemmaRangeWrite(owner *Collection, dirty []uint64) {
 //@ contract target=column.(*Txn).commitMarkers use verify=no
 func vContractCommitMarkers(txn *Txn, chunk commit.Chunk, fill bitmap.Bitmap, buffer *commit.Buffer) {
 	txn.commitMarkers(chunk, fill, buffer)
+	vWorkerSeq++
+	vMarkersAt, vMarkersChunk = vWorkerSeq, chunk
 }
+
+// ghost: order and blocks of the per-block workers of the commit step
+var (
+	vWorkerSeq    int
+	vMarkersAt    int
+	vUpdatesAt    int
+	vMarkersChunk commit.Chunk
+	vUpdatesChunk commit.Chunk
+)
 
 //@ contract target=column.(*Txn).commitUpdates use verify=no
 func vContractCommitUpdates(txn *Txn, chunk commit.Chunk) (updated bool) {
 	updated = txn.commitUpdates(chunk)
 	vLastUpdated = updated // ghost
+	vWorkerSeq++
+	vUpdatesAt, vUpdatesChunk = vWorkerSeq, chunk
 	return
 }
 
@@ -565,9 +578,15 @@ func vLemmaCommitEmits(owner *Collection, updates []*commit.Buffer, dirty []uint
 	vLogCount = 0
 	before := vNextID
 	vLastUpdated, vLastChanged = false, false
+	vWorkerSeq, vMarkersAt, vUpdatesAt = 0, 0, 0
 	txn.commit()
 	changedRows := vLastChanged
 	visited := vNextID != before // the Range model visits at most one (arbitrary) dirty block
+	if visited {
+		// values first, rows after: a row written and deleted in one transaction must leave nothing behind (★D24)
+		vAssert("column-updates-of-the-block-applied-once", vUpdatesAt == 1 && int(vUpdatesChunk) < len(owner.commits) && owner.commits[vUpdatesChunk] == vNextID)
+		vAssert("row-markers-applied-after-the-column-updates-iff-rows-changed", (changedRows && vMarkersAt == 2 && vMarkersChunk == vUpdatesChunk) || (!changedRows && vMarkersAt == 0))
+	}
 	vAssert("at-most-one-per-block-visited", vLogCount <= 1)
 	if !visited {
 		vAssert("no-block-no-emission", vLogCount == 0)
@@ -671,6 +690,7 @@ func vLemmaRollback(owner *Collection, updates []*commit.Buffer) {
 	txn := &Txn{owner: owner, updates: updates, logger: lg}
 	vCol = owner
 	vLogCount, vDidReset = 0, 0
+	vOldFill = append([]uint64(nil), owner.fill...) // (ghost of rollback's loop contract)
 	ids := vNextID
 	txn.rollback()
 	vAssert("recount-under-mutex", owner.count == uint64(vLastCount))
@@ -1288,29 +1308,50 @@ func vLemmaReplayOnlyItsBlock(owner *Collection, chunk commit.Chunk, updates []*
 // satisfy. They are kept as obligations so that they are reported (KNOWN-FINDING) rather than silently absent, and
 // so that a different violation of the same property still fails an unexcused clause.
 
-// D3 (C02): a rolled-back transaction leaves no trace - in particular the offset a successful insert reserved is free
-// again after rollback.
-//
-//@ lemma props=C02 real=column.(*Txn).rollback
-func vLemmaRollbackFreesReserved(owner *Collection) {
-	vAssume(owner != nil && vNothingHeld() && owner.count < 1<<40)
-	vCol = owner
-	txn := &Txn{owner: owner}
-	idx := owner.next() // what a successful insert reserves
-	txn.rollback()
-	vAssert("live-restored", int(idx>>6) >= len(owner.fill) || !vBit(owner.fill, idx))
+// C02 (★D3, ★D4 repaired): the offsets a transaction's inserts reserve - whether their callbacks succeed or fail - are
+// remembered by the transaction and given back when it is rolled back; a failed insert queues the removal of its row
+// (so that a commit drops the row together with whatever the callback had written) and keeps the offset reserved
+// until the transaction ends (nobody else can be handed it meanwhile).
+
+//@ loop target=column.(*Txn).rollback index=0 props=C02,C11
+func vLoopRollbackFrees(txn *Txn, rangeindex int, rangeslice []uint32) {
+	vInvariant(-1 <= rangeindex && rangeindex < len(rangeslice) && len(rangeslice) < 1<<20 && vColW && vColR == 0 && vOtherW == 0 && vNoLatchHeld())
+	vInvariant(len(txn.owner.fill) == len(vOldFill) && vDistinctBacking(txn.owner.fill, rangeslice))
+	vInvariant(vForall(0, rangeindex+1, func(i int) bool {
+		return int(rangeslice[i]>>6) >= len(txn.owner.fill) || !vBit(txn.owner.fill, rangeslice[i])
+	}))
+	vInvariant(vForall(0, len(vOldFill), func(w int) bool { return txn.owner.fill[w]&^vOldFill[w] == 0 })) // bits are only cleared
+	vBody()
 }
 
-// D4 (C02, C11): an insert whose callback fails leaves no marker behind in the transaction.
-//
-//@ lemma props=C02,C11 real=column.(*Txn).insert,column.(*Txn).bufferFor
-func vLemmaFailedInsertLeavesNoMarker(owner *Collection) {
-	vAssume(owner != nil && owner.txns != nil && vNothingHeld() && owner.count < 1<<40 && len(owner.fill) < 1<<24)
+//@ lemma props=C02,C11 real=column.(*Txn).rollback
+func vLemmaRollbackFreesReserved(owner *Collection, inserts []uint32) {
+	vAssume(owner != nil && vNothingHeld() && len(inserts) < 1<<20 && len(owner.fill) <= 1<<25 && vDistinctBacking(owner.fill, inserts))
 	vCol = owner
-	txn := &Txn{owner: owner, updates: make([]*commit.Buffer, 0, 4)}
-	_, err := txn.insert(func(Row) error { return nil }, 0) // QueryAt is under its (assumed) contract: it may fail
+	vOldFill = append([]uint64(nil), owner.fill...)
+	txn := &Txn{owner: owner, inserts: inserts}
+	vDidReset = 0
+	txn.rollback()
+	vAssert("live-restored", vForall(0, len(inserts), func(i int) bool { return int(inserts[i]>>6) >= len(owner.fill) || !vBit(owner.fill, inserts[i]) }))
+	vAssert("no-other-row-comes-to-life", len(owner.fill) == len(vOldFill) && vForall(0, len(vOldFill), func(w int) bool { return owner.fill[w]&^vOldFill[w] == 0 }))
+	vAssert("count-recomputed-from-the-fill-list", owner.count == uint64(vLastCount) && vSameSlice(vCountOf, owner.fill))
+	vAssert("buffers-dropped", vDidReset == 1)
+	vAssert("released", vNothingHeld())
+}
+
+//@ lemma props=C02,C11 real=column.(*Txn).insert use=commit.(*Buffer).PutOperation
+func vLemmaFailedInsertLeavesNoMarker(owner *Collection, inserts []uint32) {
+	vAssume(owner != nil && owner.txns != nil && vNothingHeld() && owner.count < 1<<40 && len(owner.fill) < 1<<24 && len(inserts) < 1<<20)
+	vCol = owner
+	txn := &Txn{owner: owner, inserts: inserts}
+	vPutOps = 0
+	idx, err := txn.insert(func(Row) error { return nil }, 0) // QueryAt is under its (assumed) contract: it may fail
+	vAssert("reserved-offset-remembered-by-the-transaction", len(txn.inserts) == len(inserts)+1 && txn.inserts[len(inserts)] == idx)
+	vAssert("offset-stays-reserved-until-the-transaction-ends", int(idx>>6) < len(owner.fill) && vBit(owner.fill, idx))
 	if err != nil {
-		vAssert("error=>buffers-unchanged", len(txn.updates) == 0 || txn.updates[0].IsEmpty())
+		vAssert("error=>removal-of-the-row-queued-last", vPutOps == 2 && vPutOpKind == commit.Delete && vPutOpIdx == idx && vBufferForName == rowColumn)
+	} else {
+		vAssert("success:only-the-insert-marker-queued", vPutOps == 1 && vPutOpKind == commit.Insert && vPutOpIdx == idx)
 	}
 }
 
@@ -1429,7 +1470,7 @@ func vLemmaEnumInterned(names []string, v []byte) {
 func vLemmaAscendHoldsLatch(owner *Collection, index []uint64, name string) {
 	vAssume(owner != nil && owner.slock != nil && vNothingHeld() && len(index) <= 1<<25)
 	vCol = owner
-	vLoadSortIndex = true
+	vLoadSortIndex, vLoadForce = true, false
 	txn := &Txn{owner: owner, index: index, setup: true}
 	txn.Ascend(name, func(idx uint32) {
 		vAssert("cursor-on-row", txn.cursor == idx)
@@ -1468,9 +1509,10 @@ func vLemmaReset(owner *Collection, updates []*commit.Buffer, dirty []uint64, co
 	// data-structure invariant of a pooled transaction: beyond its length the dirty set's backing array is zero
 	whole := dirty[:cap(dirty)]
 	vAssume(vForall(len(dirty), len(whole), func(w int) bool { return whole[w] == 0 }))
-	txn := &Txn{owner: owner, updates: updates, dirty: dirty, columns: columns, reader: commit.NewReader()}
+	txn := &Txn{owner: owner, updates: updates, dirty: dirty, columns: columns, reader: commit.NewReader(), inserts: vNondet[[]uint32]()}
 	vPoolPuts, vSpareZero = 0, true
 	txn.reset()
+	vAssert("reserved-offsets-forgotten", len(txn.inserts) == 0)
 	vAssert("every-page-released-once", vPoolPuts == len(updates))
 	vAssert("updates-empty", len(txn.updates) == 0)
 	vAssert("column-cache-empty", len(txn.columns) == 0)
@@ -1701,6 +1743,7 @@ var (
 func vContractColumnAtGhost(txn *Txn, columnName string) (col *column, ok bool) {
 	col, ok = txn.columnAt(columnName)
 	vEnsures("found-is-non-nil", !ok || col != nil)
+	vEnsures("kind-says-what-the-implementation-supports", !ok || vKindOK(col)) // (columnFor: vLemmaColumnFor)
 	if vColumnAtN < 4 {
 		vColumnAtFound[vColumnAtN] = ok
 	}
@@ -1708,12 +1751,22 @@ func vContractColumnAtGhost(txn *Txn, columnName string) (col *column, ok bool) 
 	return
 }
 
-//@ lemma props=C04
+// initialize replaced by its effect (its own lemma: vLemmaInitialize): some selection, set up
+//
+//@ contract target=column.(*Txn).initialize optin verify=no
+func vContractInitializeGhost(txn *Txn) {
+	vModifies(&txn.index, &txn.setup)
+	txn.initialize()
+	vEnsures("set-up", txn.setup && len(txn.index) <= 1<<25)
+}
+
+//@ lemma props=C04 use=column.(*Txn).initialize
 func vLemmaUnion(owner *Collection, setup bool, index []uint64, a, b string) {
 	vAssume(owner != nil && vNothingHeld() && len(index) <= 1<<25)
 	vCol = owner
 	txn := &Txn{owner: owner, setup: setup, index: index}
 	vPairN, vColumnAtN = 0, 0
+	vSpareZero = false
 	txn.Union(a, b)
 	fa, fb := vColumnAtFound[0], vColumnAtFound[1]
 	vAssert("each-name-looked-up-once", vColumnAtN == 2)
@@ -1998,7 +2051,7 @@ func vDropped(err error, name string) {
 //@ lemma props=C19
 func vLemmaDropTrigger(c *Collection, name string) {
 	vAssume(c != nil)
-	vLoadSortIndex = false
+	vLoadSortIndex, vLoadForce = false, false
 	vRegSeq, vLoadCalls, vDeleteIndexAt, vDeleteColumnAt = 0, 0, 0, 0
 	vDropped(c.DropTrigger(name), name)
 }
@@ -2006,7 +2059,7 @@ func vLemmaDropTrigger(c *Collection, name string) {
 //@ lemma props=C03,C16
 func vLemmaDropIndex(c *Collection, name string) {
 	vAssume(c != nil)
-	vLoadSortIndex = false
+	vLoadSortIndex, vLoadForce = false, false
 	vRegSeq, vLoadCalls, vDeleteIndexAt, vDeleteColumnAt = 0, 0, 0, 0
 	vDropped(c.DropIndex(name), name)
 }
@@ -2122,7 +2175,7 @@ func vCreated(c *Collection, err error, indexName, columnName string) {
 func vLemmaCreateIndex(c *Collection, indexName, columnName string, fn func(r Reader) bool) {
 	vAssume(c != nil && vNothingHeld())
 	vCol = c
-	vLoadSortIndex = false
+	vLoadSortIndex, vLoadForce = false, false
 	vStoreCalls, vSnapshotCalls, vColApplyCalls, vLoadCalls = 0, 0, 0, 0
 	vCreated(c, c.CreateIndex(indexName, columnName, fn), indexName, columnName)
 }
@@ -2131,7 +2184,7 @@ func vLemmaCreateIndex(c *Collection, indexName, columnName string, fn func(r Re
 func vLemmaCreateSortIndex(c *Collection, indexName, columnName string) {
 	vAssume(c != nil && vNothingHeld())
 	vCol = c
-	vLoadSortIndex = false
+	vLoadSortIndex, vLoadForce = false, false
 	vStoreCalls, vSnapshotCalls, vColApplyCalls, vLoadCalls = 0, 0, 0, 0
 	vCreated(c, c.CreateSortIndex(indexName, columnName), indexName, columnName)
 }
@@ -2240,4 +2293,473 @@ func vLemmaRecordMergeOwnsItsDecodeTargets(merge func(value, delta *vRec) *vRec,
 	vCallAnon("column.ForRecord[*vRec]$3", []any{"pool", &pool, "mergeFunc", &merge}, v, d)
 	vAssert("both-decode-targets-taken-from-the-pool-for-this-call", vPoolGets == 2)
 	vAssert("and-returned-to-it", vPoolPuts == 2)
+}
+
+// ---------------------------------------------------------------------------------------------
+// Typed filters (C04). Per block, a numeric or string column first narrows the window of the selection to the rows
+// that hold a value (AND with the presence bits) and then keeps exactly those whose stored value the predicate
+// accepts (bitmap.Filter: model, one arbitrary selected bit); a block beyond the column is left as it is.
+// WithInt / WithUint / WithFloat / WithString: a missing column or one of the wrong kind selects nothing; otherwise
+// every block's window is handed, with that block and the caller's predicate, to the column's typed filter.
+
+//@ lemma props=C04
+func vLemmaFilterNumbers(chs chunks[int32], chunk commit.Chunk, index []uint64, pred func(int64) bool) {
+	vAssume(pred != nil && len(index) <= chunkSize/64 && chunk < 1<<17)
+	vAssume(vForall(0, len(chs), func(k int) bool { return len(chs[k].fill) == chunkSize/64 && len(chs[k].data) == chunkSize }))
+	col := &numericColumn[int32]{chunks: chs}
+	old := append([]uint64(nil), index...)
+	if int(chunk) < len(chs) {
+		vAssume(vDistinctBacking(index, chs[chunk].fill))
+	}
+	col.FilterInt64(chunk, bitmap.Bitmap(index), pred)
+	if int(chunk) >= len(chs) {
+		vAssert("block-beyond-the-column-untouched", vForall(0, len(index), func(w int) bool { return index[w] == old[w] }))
+		return
+	}
+	fill, data := chs[chunk].fill, chs[chunk].data
+	x := vFilterBit
+	if int(x>>6) < len(index) {
+		vAssert("kept-iff-selected-present-and-accepted", vBit(index, x) == (vBit(old, x) && vBit(fill, x) && pred(int64(data[x]))))
+	}
+	vAssert("other-rows-only-narrowed-to-presence", vForall(0, len(index), func(w int) bool {
+		m := uint64(0)
+		if uint32(w) == x>>6 {
+			m = 1 << (x & 63)
+		}
+		return index[w]&^m == old[w]&fill[w]&^m
+	}))
+}
+
+//@ lemma props=C04
+func vLemmaFilterString(chs chunks[string], chunk commit.Chunk, index []uint64, pred func(string) bool) {
+	vAssume(pred != nil && len(index) <= chunkSize/64 && chunk < 1<<17)
+	vAssume(vForall(0, len(chs), func(k int) bool { return len(chs[k].fill) == chunkSize/64 && len(chs[k].data) == chunkSize }))
+	col := &columnString{chunks: chs}
+	old := append([]uint64(nil), index...)
+	if int(chunk) < len(chs) {
+		vAssume(vDistinctBacking(index, chs[chunk].fill))
+	}
+	col.FilterString(chunk, bitmap.Bitmap(index), pred)
+	if int(chunk) >= len(chs) {
+		vAssert("block-beyond-the-column-untouched", vForall(0, len(index), func(w int) bool { return index[w] == old[w] }))
+		return
+	}
+	fill, data := chs[chunk].fill, chs[chunk].data
+	x := vFilterBit
+	if int(x>>6) < len(index) {
+		vAssert("kept-iff-selected-present-and-accepted", vBit(index, x) == (vBit(old, x) && vBit(fill, x) && pred(data[x])))
+	}
+	vAssert("other-rows-only-narrowed-to-presence", vForall(0, len(index), func(w int) bool {
+		m := uint64(0)
+		if uint32(w) == x>>6 {
+			m = 1 << (x & 63)
+		}
+		return index[w]&^m == old[w]&fill[w]&^m
+	}))
+}
+
+// the invariant columnFor establishes: the kind bits say exactly which typed interfaces the implementation has
+func vKindOK(c *column) bool {
+	_, num := c.Column.(Numeric)
+	_, txt := c.Column.(Textual)
+	return c.IsNumeric() == num && c.IsTextual() == txt
+}
+
+//@ lemma props=C04
+func vLemmaColumnFor(name string, v Column) {
+	c := columnFor(name, v)
+	vAssert("kind-says-what-the-implementation-supports", c != nil && vKindOK(c) && c.Column == v && c.name == name)
+}
+
+// rangeRead replaced by: the delegate runs for one arbitrary block (its own lemma: vLemmaRangeRead)
+var (
+	vRangeReadCalls  int
+	vRangeReadChunk  commit.Chunk
+	vRangeReadWindow bitmap.Bitmap
+)
+
+//@ contract target=column.(*Txn).rangeRead optin verify=no
+func vContractRangeReadOneBlock(txn *Txn, f func(chunk commit.Chunk, index bitmap.Bitmap)) {
+	txn.rangeRead(f)
+	vRangeReadCalls++
+	c, w := vNondet[commit.Chunk](), vNondet[bitmap.Bitmap]()
+	vAssume(c < 1<<17 && len(w) <= chunkSize/64)
+	vRangeReadChunk, vRangeReadWindow = c, w
+	f(c, w)
+}
+
+var (
+	vTypedCalls  int
+	vTypedKind   uint8
+	vTypedChunk  commit.Chunk
+	vTypedIndex  bitmap.Bitmap
+	vTypedOn     Column
+	vTypedInt    func(int64) bool
+	vTypedUint   func(uint64) bool
+	vTypedFloat  func(float64) bool
+	vTypedString func(string) bool
+)
+
+//@ model column.Numeric.FilterInt64
+func vModelFilterInt64(c Numeric, chunk commit.Chunk, index bitmap.Bitmap, p func(int64) bool) {
+	vTypedCalls++
+	vTypedKind, vTypedChunk, vTypedIndex, vTypedOn, vTypedInt = 0, chunk, index, c, p
+}
+
+//@ model column.Numeric.FilterUint64
+func vModelFilterUint64(c Numeric, chunk commit.Chunk, index bitmap.Bitmap, p func(uint64) bool) {
+	vTypedCalls++
+	vTypedKind, vTypedChunk, vTypedIndex, vTypedOn, vTypedUint = 1, chunk, index, c, p
+}
+
+//@ model column.Numeric.FilterFloat64
+func vModelFilterFloat64(c Numeric, chunk commit.Chunk, index bitmap.Bitmap, p func(float64) bool) {
+	vTypedCalls++
+	vTypedKind, vTypedChunk, vTypedIndex, vTypedOn, vTypedFloat = 2, chunk, index, c, p
+}
+
+//@ model column.Textual.FilterString
+func vModelFilterString(c Textual, chunk commit.Chunk, index bitmap.Bitmap, p func(string) bool) {
+	vTypedCalls++
+	vTypedKind, vTypedChunk, vTypedIndex, vTypedOn, vTypedString = 3, chunk, index, c, p
+}
+
+//@ lemma props=C04 use=column.(*Txn).rangeRead
+func vLemmaTypedFilters(owner *Collection, index []uint64, name string, sel uint8, pi func(int64) bool, pu func(uint64) bool, pf func(float64) bool, ps func(string) bool,
+	xi int64, xu uint64, xf float64, xs string) {
+	vAssume(owner != nil && vNothingHeld() && sel <= 3 && pi != nil && pu != nil && pf != nil && ps != nil && len(index) <= 1<<25)
+	vCol = owner
+	txn := &Txn{owner: owner, setup: true, index: index}
+	vColumnAtN, vRangeReadCalls, vTypedCalls = 0, 0, 0
+	vSpareZero = false
+	switch sel {
+	case 0:
+		txn.WithInt(name, pi)
+	case 1:
+		txn.WithUint(name, pu)
+	case 2:
+		txn.WithFloat(name, pf)
+	default:
+		txn.WithString(name, ps)
+	}
+	found := vColumnAtFound[0]
+	vAssert("name-looked-up-once", vColumnAtN == 1)
+	if vRangeReadCalls == 0 {
+		vAssert("missing-or-wrong-kind-selects-nothing", len(txn.index) == 0 && vTypedCalls == 0)
+	} else {
+		vAssert("every-block-window-goes-to-the-column's-typed-filter", found && vRangeReadCalls == 1 && vTypedCalls == 1 && vTypedKind == sel &&
+			vTypedChunk == vRangeReadChunk && vSameSlice(vTypedIndex, vRangeReadWindow))
+		switch sel {
+		case 0:
+			vAssert("with-the-caller's-predicate", vTypedInt(xi) == pi(xi))
+		case 1:
+			vAssert("with-the-caller's-predicate", vTypedUint(xu) == pu(xu))
+		case 2:
+			vAssert("with-the-caller's-predicate", vTypedFloat(xf) == pf(xf))
+		default:
+			vAssert("with-the-caller's-predicate", vTypedString(xs) == ps(xs))
+		}
+	}
+	vAssert("released", vNothingHeld())
+}
+
+// ---------------------------------------------------------------------------------------------
+// Transaction-side bookkeeping (C02, C11, C17): DeleteAt queues a row delete for exactly the given offset if and only
+// if the transaction's selection contains it; bufferFor hands out the transaction's one buffer of a column - the
+// existing one if there is one, otherwise a page taken from the pool that it appends to the update list.
+
+//@ lemma props=C11,C17,C02 real=column.(*Txn).DeleteAt use=commit.(*Buffer).PutOperation
+func vLemmaDeleteAt(owner *Collection, index []uint64, at uint32) {
+	vAssume(owner != nil && vNothingHeld() && len(index) <= 1<<25)
+	vCol = owner
+	txn := &Txn{owner: owner, setup: true, index: index}
+	vPutOps = 0
+	selected := int(at>>6) < len(index) && vBit(index, at)
+	ok := txn.DeleteAt(at)
+	vAssert("deletes-iff-selected", ok == selected)
+	vAssert("selected:one-delete-marker-for-that-row-in-the-row-buffer", !selected || (vPutOps == 1 && vPutOpKind == commit.Delete && vPutOpIdx == at && vBufferForName == rowColumn))
+	vAssert("not-selected:nothing-queued", selected || vPutOps == 0)
+}
+
+//@ loop target=column.(*Txn).bufferFor index=0 props=C02,C01
+func vLoopBufferFor(txn *Txn, columnName string, rangeindex int, rangeslice []*commit.Buffer) {
+	vInvariant(-1 <= rangeindex && rangeindex < len(rangeslice) && vSameSlice(rangeslice, txn.updates) &&
+		vForall(0, rangeindex+1, func(i int) bool { return rangeslice[i].Column != columnName }))
+	vBody()
+}
+
+//@ lemma props=C02,C01 real=column.(*Txn).bufferFor
+func vLemmaBufferFor(owner *Collection, updates []*commit.Buffer, name string) {
+	vAssume(owner != nil && owner.txns != nil && len(updates) < 1<<20 && vForall(0, len(updates), func(i int) bool { return updates[i] != nil }))
+	txn := &Txn{owner: owner, updates: updates}
+	old := append([]*commit.Buffer(nil), updates...)
+	vAcquiredPages = 0
+	b := txn.bufferFor(name)
+	vAssert("buffer-of-that-column", b != nil && b.Column == name)
+	if vAcquiredPages == 0 {
+		vAssert("existing-buffer-reused-list-unchanged", len(txn.updates) == len(old) && vForall(0, len(old), func(i int) bool { return txn.updates[i] == old[i] }))
+	} else {
+		vAssert("no-buffer-of-that-column-existed", vForall(0, len(old), func(i int) bool { return old[i].Column != name }))
+		vAssert("one-page-taken-and-appended", vAcquiredPages == 1 && b == vLastAcquired && len(txn.updates) == len(old)+1 && txn.updates[len(old)] == b &&
+			vForall(0, len(old), func(i int) bool { return txn.updates[i] == old[i] }))
+	}
+}
+
+// Txn.insert (C11, C02): one offset is reserved (next), an Insert marker for exactly that offset is queued in the row
+// buffer, the callback runs once positioned on that offset (QueryAt); if it fails a Delete marker for the offset is
+// queued after it and the error returned together with the offset; the offset stays reserved either way.
+//
+//@ lemma props=C11,C02 real=column.(*Txn).insert use=commit.(*Buffer).PutOperation
+func vLemmaInsert(owner *Collection, fn func(Row) error) {
+	vAssume(owner != nil && vNothingHeld() && owner.count < 1<<40 && len(owner.fill) < 1<<24)
+	vCol = owner
+	txn := &Txn{owner: owner}
+	vPutOps, vDidQueryAt = 0, 0
+	idx, err := txn.insert(fn, 0)
+	vAssert("markers-for-the-reserved-offset-in-the-row-buffer", vPutOpIdx == idx && vBufferForName == rowColumn &&
+		((err == nil && vPutOps == 1 && vPutOpKind == commit.Insert) || (err != nil && vPutOps == 2 && vPutOpKind == commit.Delete)))
+	vAssert("callback-runs-once-on-the-new-row", vDidQueryAt == 1 && vLastQueryAt == idx)
+	vAssert("offset-stays-reserved", int(idx>>6) < len(owner.fill) && vBit(owner.fill, idx))
+	vAssert("released", vNothingHeld())
+}
+
+// Txn.initialize (C04, C02): the first filter or iteration of a transaction starts from the live rows - a private copy
+// of the fill list taken under the collection mutex (reads) - and later calls keep the selection as it is.
+//
+//@ lemma props=C04,C02
+func vLemmaInitialize(owner *Collection, index []uint64, setup bool) {
+	vAssume(owner != nil && vNothingHeld() && len(owner.fill) <= 1<<25 && len(index) <= 1<<25 && owner.opts.Capacity >= 0 && owner.opts.Capacity < 1<<30)
+	vCol = owner
+	// invariant of a pooled transaction's selection: beyond the fill list its words - and its spare capacity - are zero
+	// (it was a copy of a fill list that only grows, narrowed by filters, or was cleared)
+	whole := index[:cap(index)]
+	vAssume(vForall(len(owner.fill), len(whole), func(w int) bool { return whole[w] == 0 }) && vDistinctBacking(index, owner.fill))
+	old := append([]uint64(nil), index...)
+	txn := &Txn{owner: owner, setup: setup, index: index}
+	txn.initialize()
+	vAssert("set-up-afterwards", txn.setup)
+	if setup {
+		vAssert("already-set-up:selection-kept", len(txn.index) == len(old) && vForall(0, len(old), func(w int) bool { return txn.index[w] == old[w] }))
+	} else {
+		vAssert("fresh:selection-covers-the-fill-list", len(txn.index) >= len(owner.fill))
+		vAssert("fresh:selection-is-the-live-rows", vForall(0, len(owner.fill), func(w int) bool { return txn.index[w] == owner.fill[w] }))
+		vAssert("fresh:nothing-selected-beyond-the-fill-list", vForall(len(owner.fill), len(txn.index), func(w int) bool { return txn.index[w] == 0 }))
+		vAssert("fresh:a-private-copy", vDistinctBacking(txn.index, owner.fill) || len(owner.fill) == 0)
+	}
+	vAssert("released", vNothingHeld())
+}
+
+// DeleteAll (C02, C04): a row delete is queued for every selected row (bitmap.Range: one arbitrary selected bit).
+//
+//@ lemma props=C04,C02 use=commit.(*Buffer).PutOperation
+func vLemmaDeleteAll(owner *Collection, index []uint64) {
+	vAssume(owner != nil && vNothingHeld() && len(index) <= 1<<25)
+	vCol = owner
+	txn := &Txn{owner: owner, setup: true, index: index}
+	vPutOps = 0
+	txn.DeleteAll()
+	if vPutOps > 0 {
+		vAssert("a-delete-marker-for-a-selected-row-in-the-row-buffer", vPutOps == 1 && vPutOpKind == commit.Delete && int(vPutOpIdx>>6) < len(index) && vBit(index, vPutOpIdx) && vBufferForName == rowColumn)
+	}
+}
+
+// ---------------------------------------------------------------------------------------------
+// The column registry (C03, C07, C13, C16, C19): a copy-on-write list of entries {name, [main column, computed
+// columns...]} in an atomic.Value (model: ghost variable vRegistry). Each loop is cut by an invariant; what one
+// iteration does is a step clause, so the statements hold for registries of any size.
+//   Count      counts exactly the entries whose main column is not a bitmap index - the columns Snapshot writes a
+//              buffer for (vLemmaColumnSnapshotWrapper), which is the number writeState announces per block;
+//   Range      hands the delegate every entry's main column once, in order - value columns, indexes, triggers alike;
+//   RangeUntil the same until the delegate fails, and returns that error;
+//   Load / LoadWithIndex resolve a name to the first entry of that name.
+
+func vEntriesOK(es []columnEntry) bool {
+	return len(es) < 1<<20 && vForall(0, len(es), func(i int) bool { return len(es[i].cols) >= 1 && len(es[i].cols) < 1<<20 && es[i].cols[0] != nil })
+}
+
+//@ loop target=column.(*columns).Count index=0 props=C07,C13
+func vLoopRegistryCount(count int, rangeindex int, rangeslice []columnEntry) {
+	vInvariant(-1 <= rangeindex && rangeindex < len(rangeslice) && 0 <= count && count <= rangeindex+1 && vEntriesOK(rangeslice))
+	c0, i := vKeep(count), vKeep(rangeindex)+1
+	vBody()
+	vStep("counts-exactly-the-entries-that-are-not-bitmap-indexes", count == c0+b2i(!rangeslice[i].cols[0].IsIndex()))
+}
+
+//@ lemma props=C07,C13 real=column.(*columns).Count
+func vLemmaRegistryCount(c *columns, entries []columnEntry) {
+	vAssume(c != nil && c.cols != nil && vEntriesOK(entries))
+	vRegistry = entries
+	n := c.Count()
+	vAssert("between-zero-and-the-number-of-entries", 0 <= n && n <= len(entries))
+}
+
+var (
+	vRegCalls int
+	vRegLast  *column
+)
+
+//@ loop target=column.(*columns).Range index=0 props=C03,C11,C16,C19
+func vLoopRegistryRange(rangeindex int, rangeslice []columnEntry) {
+	vInvariant(-1 <= rangeindex && rangeindex < len(rangeslice) && vEntriesOK(rangeslice) && vRegCalls == rangeindex+1)
+	i := vKeep(rangeindex) + 1
+	vBody()
+	vStep("every-entry's-main-column-handed-over-once-whatever-its-kind", vRegCalls == i+1 && vRegLast == rangeslice[i].cols[0])
+}
+
+//@ lemma props=C03,C11,C16,C19 real=column.(*columns).Range
+func vLemmaRegistryRange(c *columns, entries []columnEntry) {
+	vAssume(c != nil && c.cols != nil && vEntriesOK(entries))
+	vRegistry = entries
+	vRegCalls = 0
+	c.Range(func(col *column) {
+		vAssume(vRegCalls < 1<<20)
+		vRegCalls++
+		vRegLast = col
+	})
+	vAssert("one-call-per-entry", vRegCalls == len(entries))
+}
+
+//@ loop target=column.(*columns).RangeUntil index=0 props=C07,C13
+func vLoopRegistryRangeUntil(rangeindex int, rangeslice []columnEntry) {
+	vInvariant(-1 <= rangeindex && rangeindex < len(rangeslice) && vEntriesOK(rangeslice) && vRegCalls == rangeindex+1 && !vRegFailed)
+	i := vKeep(rangeindex) + 1
+	vBody()
+	vStep("every-entry's-main-column-handed-over-once-in-order", vRegCalls == i+1 && vRegLast == rangeslice[i].cols[0])
+}
+
+var vRegFailed bool // ghost: the delegate of the lemma has failed
+
+//@ lemma props=C07,C13 real=column.(*columns).RangeUntil
+func vLemmaRegistryRangeUntil(c *columns, entries []columnEntry, cbErr error) {
+	vAssume(c != nil && c.cols != nil && vEntriesOK(entries) && cbErr != nil)
+	vRegistry = entries
+	vRegCalls, vRegFailed = 0, false
+	err := c.RangeUntil(func(col *column) error {
+		vAssert("no-call-after-a-failure", !vRegFailed)
+		vAssume(vRegCalls < 1<<20)
+		vRegCalls++
+		vRegLast = col
+		if vNondet[bool]() {
+			vRegFailed = true
+			return cbErr
+		}
+		return nil
+	})
+	vAssert("first-failure-returned", vRegFailed == (err != nil) && (err == nil || err == cbErr))
+	vAssert("without-failure-every-entry-visited", vRegFailed || vRegCalls == len(entries))
+}
+
+//@ loop target=column.(*columns).Load index=0 props=C03,C04,C12
+func vLoopRegistryLoad(columnName string, rangeindex int, rangeslice []columnEntry) {
+	vInvariant(-1 <= rangeindex && rangeindex < len(rangeslice) && vEntriesOK(rangeslice) &&
+		vForall(0, rangeindex+1, func(i int) bool { return rangeslice[i].name != columnName }))
+	vBody()
+}
+
+//@ loop target=column.(*columns).LoadWithIndex index=0 props=C03,C01
+func vLoopRegistryLoadWithIndex(columnName string, rangeindex int, rangeslice []columnEntry) {
+	vInvariant(-1 <= rangeindex && rangeindex < len(rangeslice) && vEntriesOK(rangeslice) &&
+		vForall(0, rangeindex+1, func(i int) bool { return rangeslice[i].name != columnName }))
+	vBody()
+}
+
+//@ lemma props=C03,C04,C12,C01 real=column.(*columns).Load,column.(*columns).LoadWithIndex
+func vLemmaRegistryLoad(c *columns, entries []columnEntry, name string) {
+	vAssume(c != nil && c.cols != nil && vEntriesOK(entries))
+	vRegistry = entries
+	col, ok := c.Load(name)
+	cols, ok2 := c.LoadWithIndex(name)
+	k := vNondet[int]() // an arbitrary position
+	if 0 <= k && k < len(entries) && entries[k].name == name && vForall(0, k, func(i int) bool { return entries[i].name != name }) {
+		vAssert("load:first-entry-of-that-name", ok && col == entries[k].cols[0])
+		vAssert("loadwithindex:main-and-computed-columns-of-that-entry", ok2 && vSameSlice(cols, entries[k].cols))
+	}
+	if vForall(0, len(entries), func(i int) bool { return entries[i].name != name }) {
+		vAssert("unknown-name-not-found", !ok && col == nil && !ok2 && cols == nil)
+	}
+}
+
+// DeleteIndex (C03, C16, C19): the computed column registered under indexName is detached from the entry of
+// columnName - and ONLY it: the main column and every other computed column of the entry stay attached, in order.
+// (Registry of two entries - the watched column and another one - with any number of computed columns: the outer
+// loop is unrolled, the loop over the computed columns is cut by an invariant.)
+
+var (
+	vDropQ   int       // ghost: position of the dropped column among the entry's computed columns, or -1
+	vDropOld []*column // ghost: the entry's column list before
+)
+
+//@ loop target=column.(*columns).DeleteIndex index=1 props=C03,C16,C19
+func vLoopDeleteIndexComputed(filtered []*column, rangeindex int, rangeslice []*column, index *column) {
+	q, n := vDropQ, len(vDropOld)-1
+	vInvariant(n >= 0 && n < 1<<20 && len(rangeslice) == n && -1 <= rangeindex && rangeindex < n && -1 <= q && q < n)
+	vInvariant(vForall(0, n, func(i int) bool { return rangeslice[i] == vDropOld[1+i] }))
+	vInvariant((q < 0 || vDropOld[1+q] == index) && vForall(0, n, func(i int) bool { return i == q || vDropOld[1+i] != index }))
+	vInvariant(len(filtered) == 1+(rangeindex+1)-b2i(q >= 0 && q <= rangeindex) && filtered[0] == vDropOld[0])
+	vInvariant(vForall(0, rangeindex+1, func(i int) bool { return i == q || filtered[1+i-b2i(q >= 0 && q < i)] == vDropOld[1+i] }))
+	vInvariant(vDistinctBacking(filtered, vDropOld) && vDistinctBacking(filtered, rangeslice))
+	vBody()
+}
+
+//@ lemma props=C03,C16,C19 mode=paths real=column.(*columns).DeleteIndex
+func vLemmaRegistryDeleteIndex(c *columns, cs []*column, other columnEntry, columnName, indexName string, q int, dropped *column) {
+	n := len(cs) - 1
+	vAssume(c != nil && c.cols != nil && n >= 0 && n < 1<<20 && -1 <= q && q < n && cs[0] != nil && (dropped != nil || q < 0))
+	vAssume(other.name != columnName && len(other.cols) >= 1 && len(other.cols) < 1<<20 && other.cols[0] != nil)
+	// the column registered under indexName is `dropped` (if the name resolves at all); it occurs at most once, at 1+q
+	vAssume((q < 0 || cs[1+q] == dropped) && vForall(0, n, func(i int) bool { return i == q || cs[1+i] != dropped }))
+	old := append([]*column(nil), cs...)
+	otherCols := other.cols
+	entries := []columnEntry{other, {name: columnName, cols: cs}}
+	vRegistry = entries
+	vDropQ, vDropOld = q, old
+	vLoadCalls, vLoadForce, vLoadForced = 0, true, dropped
+	c.DeleteIndex(columnName, indexName)
+	vAssert("dropped-column-looked-up-by-its-name", vLoadCalls == 1 && vLoadName == indexName)
+	now := vRegistry
+	vAssert("registry-stored-with-both-entries", len(now) == 2 && now[0].name == other.name && now[1].name == columnName)
+	vAssert("other-entry-untouched", vSameSlice(now[0].cols, otherCols))
+	cols := now[1].cols
+	vAssert("main-column-kept", len(cols) >= 1 && cols[0] == old[0])
+	vAssert("exactly-the-dropped-one-detached", len(cols) == len(old)-b2i(q >= 0))
+	vAssert("every-other-computed-column-still-attached-in-order", vForall(0, n, func(i int) bool { return i == q || cols[1+i-b2i(q >= 0 && q < i)] == old[1+i] }))
+}
+
+// DeleteColumn (C03, C16, C19): exactly the entry of that name leaves the registry; every other entry stays, in order,
+// with its columns; the list that was loaded is not modified (copy-on-write).
+
+var (
+	vDelP   int           // ghost: position of the entry to delete, or -1
+	vDelOld []columnEntry // ghost: the registry before
+)
+
+func vEntrySame(a, b columnEntry) bool { return a.name == b.name && vSameSlice(a.cols, b.cols) }
+
+//@ loop target=column.(*columns).DeleteColumn index=0 props=C03,C16,C19
+func vLoopDeleteColumn(filtered []columnEntry, columnName string, rangeindex int, rangeslice []columnEntry) {
+	p, n := vDelP, len(vDelOld)
+	vInvariant(n < 1<<20 && len(rangeslice) == n && -1 <= rangeindex && rangeindex < n && -1 <= p && p < n)
+	vInvariant(vForall(0, n, func(i int) bool { return vEntrySame(rangeslice[i], vDelOld[i]) }))
+	vInvariant(vForall(0, n, func(i int) bool { return (i == p) == (vDelOld[i].name == columnName) }))
+	vInvariant(len(filtered) == (rangeindex+1)-b2i(p >= 0 && p <= rangeindex))
+	vInvariant(vForall(0, rangeindex+1, func(i int) bool { return i == p || vEntrySame(filtered[i-b2i(p >= 0 && p < i)], vDelOld[i]) }))
+	vInvariant(vDistinctBacking(filtered, vDelOld) && vDistinctBacking(filtered, rangeslice))
+	vBody()
+}
+
+//@ lemma props=C03,C16,C19 real=column.(*columns).DeleteColumn
+func vLemmaRegistryDeleteColumn(c *columns, entries []columnEntry, name string, p int) {
+	n := len(entries)
+	vAssume(c != nil && c.cols != nil && n < 1<<20 && -1 <= p && p < n)
+	vAssume(vForall(0, n, func(i int) bool { return (i == p) == (entries[i].name == name) })) // names are unique
+	old := append([]columnEntry(nil), entries...)
+	vRegistry = entries
+	vDelP, vDelOld = p, old
+	vRegistryStores = 0
+	c.DeleteColumn(name)
+	now := vRegistry
+	vAssert("stored-once", vRegistryStores == 1)
+	vAssert("exactly-that-entry-removed", len(now) == n-b2i(p >= 0))
+	vAssert("every-other-entry-kept-in-order", vForall(0, n, func(i int) bool { return i == p || vEntrySame(now[i-b2i(p >= 0 && p < i)], old[i]) }))
+	vAssert("loaded-list-not-modified", vForall(0, n, func(i int) bool { return vEntrySame(entries[i], old[i]) }))
 }
